@@ -364,6 +364,34 @@ fn case(m: &mut Mon, r: &mut Rng, _idx: u64) {
                         _ => { prim_forms!(v, a, ib.clone(), /, /=); v.push(("via_fbig", catch(|| (&a / F::from(ib.clone())).show()))); }
                     }
                     agree(&v, &format!("fbig {} ibig", fname))?;
+                    // integer operand on the left (separate macro arms: the non-commutative ones must not swap)
+                    let mut v: Forms = vec![];
+                    match fop {
+                        0 => { prim_left_forms!(v, a, ib.clone(), +); v.push(("via_fbig", catch(|| (F::from(ib.clone()) + &a).show()))); }
+                        1 => { prim_left_forms!(v, a, ib.clone(), -); v.push(("via_fbig", catch(|| (F::from(ib.clone()) - &a).show()))); }
+                        2 => { prim_left_forms!(v, a, ib.clone(), *); v.push(("via_fbig", catch(|| (F::from(ib.clone()) * &a).show()))); }
+                        _ => { prim_left_forms!(v, a, ib.clone(), /); v.push(("via_fbig", catch(|| (F::from(ib.clone()) / &a).show()))); }
+                    }
+                    agree(&v, &format!("ibig {} fbig", fname))?;
+                    // primitive operands on either side
+                    let (pi, pu) = ((sb.first().copied().unwrap_or(3) as i64) >> 40 | 1, (sb.first().copied().unwrap_or(3) >> 57) as u8 | 1);
+                    let pi = if nb { -pi } else { pi };
+                    let mut v: Forms = vec![];
+                    match fop {
+                        0 => { prim_forms!(v, a, pi, +, +=); v.push(("via_fbig", catch(|| (&a + F::from(pi)).show()))); }
+                        1 => { prim_forms!(v, a, pi, -, -=); v.push(("via_fbig", catch(|| (&a - F::from(pi)).show()))); }
+                        2 => { prim_forms!(v, a, pi, *, *=); v.push(("via_fbig", catch(|| (&a * F::from(pi)).show()))); }
+                        _ => { prim_forms!(v, a, pi, /, /=); v.push(("via_fbig", catch(|| (&a / F::from(pi)).show()))); }
+                    }
+                    agree(&v, &format!("fbig {} i64", fname))?;
+                    let mut v: Forms = vec![];
+                    match fop {
+                        0 => { prim_left_forms!(v, a, pu, +); v.push(("via_fbig", catch(|| (F::from(pu) + &a).show()))); }
+                        1 => { prim_left_forms!(v, a, pu, -); v.push(("via_fbig", catch(|| (F::from(pu) - &a).show()))); }
+                        2 => { prim_left_forms!(v, a, pu, *); v.push(("via_fbig", catch(|| (F::from(pu) * &a).show()))); }
+                        _ => { prim_left_forms!(v, a, pu, /); v.push(("via_fbig", catch(|| (F::from(pu) / &a).show()))); }
+                    }
+                    agree(&v, &format!("u8 {} fbig", fname))?;
                     // shifts
                     let mut v: Forms = vec![];
                     v.push(("shl", catch(|| (a.clone() << sh).show())));
